@@ -843,7 +843,9 @@ var svcModes = []struct {
 	name string
 	set  bool
 	val  string
-}{{"unset", false, ""}, {`""`, true, ""}, {`"svc"`, true, "svc"}}
+}{{"unset", false, ""}, {`""`, true, ""}, {`"svc"`, true, "svc"},
+	// the service name is a value, not a list: delimiters and escapes in it mean themselves
+	{`"a,b=c"`, true, "a,b=c"}, {`"x%2Fy"`, true, "x%2Fy"}}
 
 func (c *c19) envCase(raw string, mode int) {
 	r := c.r
@@ -1276,11 +1278,108 @@ var envTokens = []string{"k", "service.name", "=", ",", " ", "v", "%2C", "%3D", 
 
 const tripleParts = 8
 
+// jobHistory: resources are values -- what one call built must not show in what a later,
+// unrelated call returns. Every sequence of <= 3 calls from a menu of constructors (with and
+// without schema URL, with only invalid attributes, Empty, Merge of nils, the environment detector
+// with nothing set), each judged on its own result, and after every call the probes: Empty(),
+// NewSchemaless() and NewSchemaless(only invalid) are empty and schemaless, and merging them with
+// a resource X from either side gives X (attributes, schema URL, no error).
+func (c *c19) jobHistory(job string) {
+	r := c.r
+	type spec struct {
+		attrs  string
+		schema string
+	}
+	type call struct {
+		name string
+		do   func() (*resource.Resource, error)
+		want spec
+	}
+	bad := attribute.String("", "no-key")
+	a1 := attribute.Int("a", 1)
+	menu := []call{
+		{"NewWithAttributes(s1, a=1)", func() (*resource.Resource, error) { return resource.NewWithAttributes(c19s1, a1), nil }, spec{canonKVs([]attribute.KeyValue{a1}), c19s1}},
+		{"NewWithAttributes(s1, <only an attribute without key>)", func() (*resource.Resource, error) { return resource.NewWithAttributes(c19s1, bad), nil }, spec{"", c19s1}},
+		{"NewWithAttributes(s2)", func() (*resource.Resource, error) { return resource.NewWithAttributes(c19s2), nil }, spec{"", c19s2}},
+		{"NewSchemaless(<only an attribute without key>)", func() (*resource.Resource, error) { return resource.NewSchemaless(bad), nil }, spec{"", ""}},
+		{"NewSchemaless()", func() (*resource.Resource, error) { return resource.NewSchemaless(), nil }, spec{"", ""}},
+		{"Empty()", func() (*resource.Resource, error) { return resource.Empty(), nil }, spec{"", ""}},
+		{"Merge(nil, nil)", func() (*resource.Resource, error) { return resource.Merge(nil, nil) }, spec{"", ""}},
+		{"Merge(NewWithAttributes(s1, a=1), Empty())", func() (*resource.Resource, error) {
+			return resource.Merge(resource.NewWithAttributes(c19s1, a1), resource.Empty())
+		}, spec{canonKVs([]attribute.KeyValue{a1}), c19s1}},
+		{"Merge(Empty(), NewWithAttributes(s2, a=1))", func() (*resource.Resource, error) {
+			return resource.Merge(resource.Empty(), resource.NewWithAttributes(c19s2, a1))
+		}, spec{canonKVs([]attribute.KeyValue{a1}), c19s2}},
+		{"Environment() with nothing set", func() (*resource.Resource, error) { return resource.Environment(), nil }, spec{"", ""}},
+	}
+	var names []string
+	for _, m := range menu {
+		names = append(names, m.name)
+	}
+	r.Bound("history_calls", names)
+	r.Bound("history_max_len", 3)
+	os.Unsetenv(c19AttrVar)
+	os.Unsetenv(c19SvcVar)
+	r.Section(job)
+	judge := func(what, class string, res *resource.Resource, err error, want spec, cas any) {
+		if res == nil {
+			res = resource.Empty()
+		}
+		if err != nil || canonReal(res) != want.attrs || res.SchemaURL() != want.schema {
+			r.FailHere("history|"+class, cas, "%s gives attributes %s schema URL %q error %v; expected attributes %s schema URL %q", what, canonReal(res), res.SchemaURL(), err, want.attrs, want.schema)
+		}
+	}
+	b2 := attribute.Int("b", 2)
+	for L := 1; L <= 3; L++ {
+		seq := make([]int, L)
+		for {
+			if r.Want() {
+				r.Eval()
+				var done []string
+				for step, i := range seq {
+					res, err := menu[i].do()
+					done = append(done, menu[i].name)
+					cas := map[string]any{"calls_so_far": append([]string{}, done...)}
+					cls := "first call"
+					if step > 0 {
+						cls = "after earlier, unrelated calls"
+					}
+					judge(menu[i].name, "result of a call|"+cls, res, err, menu[i].want, cas)
+					// probes
+					judge("Empty()", "Empty() is not empty and schemaless", resource.Empty(), nil, spec{}, cas)
+					judge("NewSchemaless()", "NewSchemaless() is not empty and schemaless", resource.NewSchemaless(), nil, spec{}, cas)
+					judge("NewSchemaless(<only an attribute without key>)", "NewSchemaless(invalid only) is not empty and schemaless", resource.NewSchemaless(bad), nil, spec{}, cas)
+					x := resource.NewWithAttributes(c19s2, b2)
+					wantX := spec{canonKVs([]attribute.KeyValue{b2}), c19s2}
+					m1, e1 := resource.Merge(resource.Empty(), x)
+					judge("Merge(Empty(), X)", "merging with Empty() is not the identity", m1, e1, wantX, cas)
+					m2, e2 := resource.Merge(x, resource.Empty())
+					judge("Merge(X, Empty())", "merging with Empty() is not the identity", m2, e2, wantX, cas)
+				}
+				r.Outcome(fmt.Sprint(seq))
+			}
+			i := L - 1
+			for i >= 0 {
+				seq[i]++
+				if seq[i] < len(menu) {
+					break
+				}
+				seq[i] = 0
+				i--
+			}
+			if i < 0 {
+				break
+			}
+		}
+	}
+}
+
 func TestVerifC19(t *testing.T) {
 	// decode failures are reported through the global error handler: keep them off stderr
 	otel.SetErrorHandler(otel.ErrorHandlerFunc(func(error) {}))
 
-	jobs := []string{"lists", "pairs", "detect"}
+	jobs := []string{"lists", "pairs", "detect", "history"}
 	for i := 0; i < tripleParts; i++ {
 		jobs = append(jobs, fmt.Sprintf("triples/%02d", i))
 	}
@@ -1319,7 +1418,7 @@ func TestVerifC19(t *testing.T) {
 		r.Bound("env_chars_max_len", charLen)
 		r.Bound("env_tokens", envTokens)
 		r.Bound("env_tokens_max_len", tokLen)
-		r.Bound("env_service_name", []string{"unset", `""`, `"svc"`})
+		r.Bound("env_service_name", []string{"unset", `""`, `"svc"`, `"a,b=c"`, `"x%2Fy"`})
 		r.Bound("detector_kinds", detKindsN)
 		r.Bound("detector_max_seq_len", detLen)
 		r.Bound("detect_entry_points", detEntries)
@@ -1332,6 +1431,8 @@ func TestVerifC19(t *testing.T) {
 			c.jobPairs(space)
 		case job == "detect":
 			c.jobDetect(detKindsN, detLen)
+		case job == "history":
+			c.jobHistory(job)
 		case strings.HasPrefix(job, "triples/"):
 			fmt.Sscanf(job, "triples/%d", &n)
 			c.jobTriples(space, n, tripleParts)
